@@ -28,7 +28,8 @@ static const char *CORE_DOMS[] = {"int", "sdbm", "soct", "term_int", "bool_int",
 inline std::vector<const DomInfo *> select_domains(const std::string &sel) {
   std::vector<const DomInfo *> out;
   if (sel == "any" || sel == "all") {
-    for (auto &d : roster()) out.push_back(&d);
+    for (auto &d : roster())
+      if (!d.machine) out.push_back(&d); // machine-integer domains have their own engine
   } else if (sel == "core") {
     for (auto n : CORE_DOMS)
       if (find_domain(n)) out.push_back(find_domain(n));
